@@ -1,11 +1,11 @@
 package props
 
 import (
-	"sync"
 	"fmt"
 	"github.com/aml-org/amf-custom-validator/pkg/config"
 	"sort"
 	"strings"
+	"sync"
 
 	"github.com/aml-org/amf-custom-validator/pkg"
 	"github.com/aml-org/amf-custom-validator/verifh/core"
